@@ -203,9 +203,11 @@ class Ctx:
 
     # ---- finish
     def finish(self):
-        # vacuity guard
+        # vacuity guard (skipped when counterexamples are in hand: exploration may have been cut short for them,
+        # and a violation verdict does not rest on coverage)
+        have_cex = any(w['finding'] is None for w in self.witnesses)
         missing = [k for k, v in self.reach.items() if not v]
-        if missing:
+        if missing and not have_cex:
             raise HarnessError("vacuity guard: no feasible path reached %s" % missing[:10])
         if self.stats.paths == 0 and not self.extra_cov.get('no_paths_ok'):
             raise HarnessError("vacuity guard: zero completed paths")
